@@ -86,7 +86,7 @@ type runOut struct {
 	RDNS  []string `json:"dst_rdns"`
 }
 
-func init() { kinds["run"] = runRun }
+func init() { kinds["run"] = runRun; kinds["alloc"] = runAlloc }
 
 func runRun(t *testing.T, s *Scenario) (evs []wire.Event) {
 	rp := s.Run
@@ -150,7 +150,7 @@ func runRun(t *testing.T, s *Scenario) (evs []wire.Event) {
 			"min", rp.MinTTL, "max", rp.MaxTTL, "timeout_us", int64(rp.TimeoutMs)*1000, "delay_us", int64(rp.DelayMs)*1000, "poll_us", 100000,
 			"target", rp.Hostname, "port", rp.Port, "cancel_us", s.CancelUs, "filter", s.Script.Filter,
 			"protocol", rp.Protocol, "tcp_method", rp.TCPMethod, "queries", rp.Queries, "e2e", rp.E2E, "reverse_dns", rp.ReverseDNS,
-			"expect", expectOf(s), "public_ip", rp.PublicIP, "pub_mode", rp.PubMode, "skip_private", rp.SkipPrivate, "query", rp.Query, "want_v6", rp.WantV6, "paris", rp.Paris)
+			"expect", expectOf(s), "expect20", expect20Of(s), "public_ip", rp.PublicIP, "pub_mode", rp.PubMode, "skip_private", rp.SkipPrivate, "query", rp.Query, "want_v6", rp.WantV6, "paris", rp.Paris)
 		ctx, cancel := context.WithCancel(context.Background())
 		defer cancel()
 		if s.CancelUs > 0 {
@@ -186,6 +186,38 @@ func runRun(t *testing.T, s *Scenario) (evs []wire.Event) {
 					}
 				} else {
 					err = fmt.Errorf("http %d: %s", status, body)
+				}
+			} else if len(s.Mix) > 0 {
+				// several requests (any mix of protocols) running at once in one process over the shared wire
+				var wg sync.WaitGroup
+				var mu sync.Mutex
+				merged := &result.Results{}
+				var errs []error
+				all := append([]*RunParams{rp}, s.Mix...)
+				for _, q := range all {
+					q := q
+					wg.Add(1)
+					go func() {
+						defer wg.Done()
+						r, e := tr.RunTraceroute(ctx, traceroute.TracerouteParams{
+							Hostname: q.Hostname, Port: q.Port, Protocol: q.Protocol, MinTTL: q.MinTTL, MaxTTL: q.MaxTTL, Delay: q.DelayMs,
+							Timeout: time.Duration(q.TimeoutMs) * time.Millisecond, TCPMethod: traceroute.TCPMethod(q.TCPMethod), WantV6: q.WantV6,
+							TCPSynParisTracerouteMode: q.Paris, TracerouteQueries: q.Queries, E2eQueries: q.E2E})
+						mu.Lock()
+						defer mu.Unlock()
+						if e != nil {
+							errs = append(errs, e)
+							return
+						}
+						merged.Traceroute.Runs = append(merged.Traceroute.Runs, r.Traceroute.Runs...)
+						merged.E2eProbe.RTTs = append(merged.E2eProbe.RTTs, r.E2eProbe.RTTs...)
+					}()
+				}
+				wg.Wait()
+				if len(errs) > 0 {
+					err = errors.Join(errs...)
+				} else {
+					res = merged
 				}
 			} else {
 				res, err = tr.RunTraceroute(ctx, params)
@@ -241,6 +273,13 @@ func expectOf(s *Scenario) any {
 	return map[string]any{"reject": false, "min": 0, "max": 0, "addr": "", "port": 0, "kind": "none"}
 }
 
+func expect20Of(s *Scenario) any {
+	if e, ok := s.Extra["expect20"]; ok {
+		return e
+	}
+	return map[string]any{"out": "none", "dialed": false, "notsup": false, "fallback": false, "method": "", "cap": "", "fault": ""}
+}
+
 func truncate(s string, n int) string {
 	if len(s) > n {
 		return s[:n]
@@ -292,4 +331,36 @@ func splitComma(s string) []string {
 		}
 	}
 	return append(out, cur)
+}
+
+// runAlloc exercises the process-wide identifier allocators from concurrent callers.
+func runAlloc(t *testing.T, s *Scenario) []wire.Event {
+	w := wire.New(wire.Script{})
+	num := func(k string) int { v, _ := s.Extra[k].(float64); return int(v) }
+	packets.VerifSetPacketIDBase(uint32(num("pid_base")))
+	icmp.VerifSetEchoIDBase(uint32(num("echo_base")))
+	callers, _ := s.Extra["callers"].([]any)
+	w.LogEvent("Params", "variant", "alloc", "entry", "alloc", "strict", false, "min", 0, "max", 0, "timeout_us", 0, "delay_us", 0, "poll_us", 0,
+		"target", "", "port", 0, "cancel_us", 0, "filter", false, "pid_base", num("pid_base"), "echo_base", num("echo_base"))
+	start := make(chan struct{})
+	var wg sync.WaitGroup
+	for ci, c := range callers {
+		cm := c.(map[string]any)
+		m, n := int(cm["m"].(float64)), int(cm["n"].(float64))
+		wg.Add(1)
+		go func(ci, m, n int) {
+			defer wg.Done()
+			<-start
+			for i := 0; i < n; i++ {
+				b := packets.AllocPacketID(uint8(m))
+				e := icmp.VerifNextEchoID()
+				w.LogEvent("Alloc", "caller", ci, "m", m, "base", int(b), "echo", int(e))
+			}
+		}(ci, m, n)
+	}
+	close(start)
+	wg.Wait()
+	w.LogEvent("Return", "ok", true, "panic", "", "err", errInfo(nil), "has_result", false, "hops", []hopOut{}, "src", "", "sport", 0, "dst", "", "dport", 0,
+		"goroutines", 0, "gsample", "", "opened", 0, "closed_once", 0, "bad_handles", []string{}, "accepts", 0)
+	return w.Events()
 }
